@@ -14,6 +14,38 @@ set_option linter.unusedSimpArgs false
 namespace Dashu.Props.GenFloatCmp
 open Dashu Dashu.Gen Dashu.GluePrelude Dashu.Proofs.Gen
 
+/-- `lhs_prec.min(isize::MAX as usize) as isize` of the regenerated text (/repo ee43486) = the clamp of the C05 hand model -/
+theorem min_clamp_c05 (p : Nat) : GluePrelude.min (p : Int) isize_MAX = ((min p Model.cmpIsizeMax : Nat) : Int) := by
+  unfold GluePrelude.min isize_MAX Model.cmpIsizeMax
+  rw [Nat.min_def]
+  split <;> split <;> omega
+
+/-- … and of the C14 hand model -/
+theorem min_clamp_cross (p : Nat) : GluePrelude.min (p : Int) isize_MAX = ((min p Model.Cross.isizeMax : Nat) : Int) := by
+  unfold GluePrelude.min isize_MAX Model.Cross.isizeMax
+  rw [Nat.min_def]
+  split <;> split <;> omega
+
+/-- `isize::saturating_add` on two `isize` values (the exact sum clamped to `[isize::MIN, isize::MAX]`) -/
+def satAddIsize (a b : Int) : Int := if a + b > isize_MAX then isize_MAX else if a + b < -isize_MAX - 1 then -isize_MAX - 1 else a + b
+
+/-- **the translator's reading of `saturating_add` in cases 4 and 5 is sound**: every test there has the shape
+    `x > y.saturating_add(n)` with `x`, `y` exponents (`isize`) and `n ≥ 0` (a precision clamped to `isize::MAX`, or
+    `digits_ub as isize`); the regenerated text (`vlib/extract.py` METHODS2 `("Int","saturating_add") -> add_`) tests
+    `x > y + n` over `Int` — the same decision for every `x ≤ isize::MAX`, `y ≥ isize::MIN`. -/
+theorem saturating_add_reading_sound (x y n : Int) (hx : x ≤ isize_MAX) (hy : -isize_MAX - 1 ≤ y) (hn : 0 ≤ n) :
+    (x > satAddIsize y n) ↔ (x > y + n) := by
+  unfold satAddIsize
+  split
+  · constructor <;> intro h <;> omega
+  · split
+    · omega
+    · exact Iff.rfl
+
+-- non-vacuity: the repaired witness `exponent = isize::MAX`, precision 1: the sum saturates, the test is false on both readings
+example : satAddIsize isize_MAX 1 = isize_MAX ∧ ¬ (isize_MAX > satAddIsize isize_MAX 1) ∧ ¬ (isize_MAX > isize_MAX + 1) := by
+  refine ⟨by decide, by decide, by decide⟩
+
 /-- `Option<(usize, usize)>` of the source as seen by the generated text -/
 def precI (p : Option (Nat × Nat)) : Option (Int × Int) := p.map fun q => ((q.1 : Int), (q.2 : Int))
 
@@ -54,8 +86,9 @@ theorem repr_cmp_same_base_is_cross_model (o : Oracle) (abs : Bool) (B : Nat) (l
   all_goals (gcases [signMatch, Sign.ofInt] h5 : ls < 0 <;> gcases [signMatch, Sign.ofInt] h6 : rs < 0)
   all_goals (gcases h7 : 0 ≤ re <;> gcases h8 : 0 ≤ le)
   all_goals (rcases prec with _ | ⟨lp, rp⟩ <;> try gprune [precI, Option.map, sign_mul_ord, Sign.app])
-  all_goals (gcases h9 : lp = 0 <;> gcases h10 : rp = 0 <;> gcases h11 : re + (rp : Int) < le <;>
-    gcases h12 : le + (lp : Int) < re)
+  all_goals (try simp only [min_clamp_cross])
+  all_goals (gcases h9 : lp = 0 <;> gcases h10 : rp = 0 <;> gcases h11 : re + ((min rp isizeMax : Nat) : Int) < le <;>
+    gcases h12 : le + ((min lp isizeMax : Nat) : Int) < re)
   all_goals (gcases h13 : re + (o.digitsUb B rs : Int) < le <;> gcases h14 : le + (o.digitsUb B ls : Int) < re)
   all_goals (gtri [absCmpInt, abs_cmp] le re)
 
@@ -140,8 +173,9 @@ theorem repr_cmp_same_base_is_c05_model (B : Nat) (digitsUb : Int → Nat) (ls l
   all_goals (gcases h5 : ls < 0 <;> gcases h6 : rs < 0)
   all_goals (gcases h7 : 0 ≤ re <;> gcases h8 : 0 ≤ le)
   all_goals (rcases prec with _ | ⟨lp, rp⟩ <;> try gprune [precI, Option.map, sign_mul_ord])
-  all_goals (gcases h9 : lp = 0 <;> gcases h10 : rp = 0 <;> gcases h11 : re + (rp : Int) < le <;>
-    gcases h12 : le + (lp : Int) < re)
+  all_goals (try simp only [min_clamp_c05])
+  all_goals (gcases h9 : lp = 0 <;> gcases h10 : rp = 0 <;> gcases h11 : re + ((min rp cmpIsizeMax : Nat) : Int) < le <;>
+    gcases h12 : le + ((min lp cmpIsizeMax : Nat) : Int) < re)
   all_goals (gcases h13 : re + (digitsUb rs : Int) < le <;> gcases h14 : le + (digitsUb ls : Int) < re)
   all_goals (gtri le re)
 
